@@ -17,9 +17,9 @@ func init() {
 		Rule: "cases: a world (NetworkPolicy / ANP / Ingress+Route families, some with one name shared by workloads of two namespaces) and a focus name W drawn from: a present name, its namespace/name form, a shared name, an absent name, a namespace name, a prefix of a name, a wrong-namespace form, 'ingress-controller' with and without ingress resources; " +
 			"the library is run with and without WithFocusWorkload(W) and the focused entries must equal exactly the unfocused entries whose source or destination is a workload whose name or namespace/name equals W (or whose source is the ingress controller when W is ingress-controller), with identical connections; when nothing matches: empty result, nil error, a non-fatal warning in Errors(); " +
 			"non-trivial = the filter keeps some but not all entries; distinct = world hash + W",
-		Assumptions: []string{"the filter is recomputed by the harness from the peers' Name()/Namespace() accessors of the unfocused run"},
-		NumCases:    func(tier string, _ int64) int { return tierN(tier, 1200, 40000) },
-		Run:         runC16,
+		Assumptions:       []string{"the filter is recomputed by the harness from the peers' Name()/Namespace() accessors of the unfocused run"},
+		NumCases:          func(tier string, _ int64) int { return tierN(tier, 1200, 40000) },
+		Run:               runC16,
 		MinNonTrivial:     200,
 		MinEffectiveShare: 0.3,
 		RequiredEvents: map[string]int64{"entries_compared": 5000, "focus_present": 100, "focus_nsname": 100, "focus_shared": 30, "focus_absent": 50,
